@@ -267,7 +267,10 @@ int json_parse_uint64(const char *buf, uint64_t *retval)
 	while (isspace((unsigned char)*buf))
 		buf++;
 	if (*buf == '-')
+	{
+		errno = EINVAL;
 		return 1; /* error: uint cannot be negative */
+	}
 
 	val = strtoull(buf, &end, 10);
 	if (end != buf)
